@@ -106,9 +106,15 @@ def install():
                 }
                 w = cmd.weight_tensor
                 if w is not None:
+                    wsrc = w.src_tensor if getattr(w, "src_tensor", None) is not None else w
+                    d["cmd"]["weight_src"] = tens_info(wsrc)
                     d["cmd"]["encoded_ranges"] = [[list(map(int, k)) if isinstance(k, tuple) else int(k), int(v.offset), int(v.scale_bytes),
                                                    int(v.weight_offset), int(v.weight_bytes), int(v.index)]
-                                                  for k, v in getattr(w, "encoded_ranges", {}).items()]
+                                                  for k, v in getattr(wsrc, "encoded_ranges", {}).items()]
+                    if cmd.scale_tensor is not None:
+                        d["cmd"]["scale_ranges"] = [[list(map(int, k)), int(v.offset), int(v.scale_bytes), int(v.weight_offset),
+                                                     int(v.weight_bytes), int(v.index)]
+                                                    for k, v in getattr(cmd.scale_tensor, "encoded_ranges", {}).items()]
             elif isinstance(cmd, hlcs.DMA):
                 d["cmd"] = {"kind": "dma", "pass": cmd.ps.name, "in": tens_info(cmd.in_tensor), "out": tens_info(cmd.out_tensor),
                             "box": box_info(cmd.box)}
